@@ -21,7 +21,9 @@ PROPERTIES = {
         "explanation": "Forest invariant of the arena (ids = slots, links point forward to live nodes that point back, "
                        "child != next, every live non-root is the child xor next of its prev) is established by build_key and "
                        "preserved by every arena/builder primitive under contract; lemmas derive disjoint subtrees, a unique live "
-                       "Document root per block, termination of prev-navigation, and that tombstoning a note leaves the rest a forest. "
+                       "Document root per block, termination of prev-navigation, and that tombstoning a note leaves the rest a forest; "
+                       "Graph::new/new_patch start from an empty forest whose key map names no root; GraphNodePointer::{to_parent,to_document} "
+                       "return the parent / the note root. "
                        "All arena sizes, all ids: no bound.",
         "assumptions": A_COMMON + [
             "A6 Key's derived Hash/Eq obey vstd's HashMap key model (axiom_key_model)",
@@ -55,7 +57,9 @@ PROPERTIES = {
         "units": ["arena_forest", "ranges", "reader_stacks"], "kani": ["positions", "ranges", "graph_nodes"], "kani_cex": [],
         "explanation": "PARTIAL: every panic!/unwrap/expect/index/cast/arithmetic site in the functions under contract is unreachable "
                        "under the stated preconditions and every recursion there has a decreases measure. Not covered: the event "
-                       "mapping in MarkdownEventsReader::read, section_block's panic arm (reachable), handlers, recursion depth.",
+                       "mapping in MarkdownEventsReader::read, handlers, recursion depth. One reachable panic is a KNOWN FINDING: "
+                       "section_block's panic! for a list item that starts with a quote, code block, rule or table (obligation at the call "
+                       "`self.process_section(0..b.len(), b)` in SectionsBuilder::block).",
         "assumptions": A_COMMON + [
             "preconditions that unverified callers must supply are assumptions (A7), e.g. GraphNode::id on Empty, node_mut on a tombstone",
         ],
@@ -65,16 +69,20 @@ PROPERTIES = {
         "explanation": "PARTIAL (conservation layers only): (a) every stack operation of the Markdown reader (push/pop of blocks and inlines, "
                        "append_block/item/row/cell/inline, apppen) puts the element at the rightmost open position and changes nothing else; "
                        "(b) the section splitter's ranges partition the block range in order; "
-                       "(c) each builder primitive appends exactly one node and changes exactly one link of the cursor, which was empty. "
-                       "Parser, event mapping and rendering are not covered.",
-        "assumptions": A_COMMON + ["A7 slot-free precondition of the primitives is a caller obligation (known to be violated by one input, DESIGN 2.3)"],
+                       "(c) each builder primitive appends exactly one node and changes exactly one link of the cursor, which was empty; "
+                       "SectionsBuilder::{new,process_section,section_block,block} keep the link they are about to write empty and "
+                       "Graph::from_markdown only appends, registers a fresh root and replaces the note's front-matter and line map by what "
+                       "this parse produced. Two known findings (list-head overwrite; item head that section_block has no arm for), one "
+                       "defect repaired in /repo (ea464ca: a list without item content adopted the following block). "
+                       "Parser, event mapping, process_blocks' body and rendering are not covered.",
+        "assumptions": A_COMMON + ["A7' assumed contract of SectionsBuilder::process_blocks (itertools/closure code); A7-input: the reader delivers no Div and hands no Header to block()"],
     },
     "C07": {
         "units": ["ranges", "arena_forest"], "kani": ["ranges"], "kani_cex": [],
         "explanation": "PARTIAL: (i) for all position vectors of any length, the ranges handed to process_section partition "
                        "[first split position, end) in order, each starting at a split position; (ii) process_section / section_block / "
-                       "block hang every block under the cursor they were given without overwriting an existing link (one known "
-                       "finding); (iii) Projector::project / project_node render, for trees of any size, an outline that is well-nested "
+                       "block hang every block under the cursor they were given without overwriting an existing link (two known "
+                       "findings; a heading after an empty list became a list item - repaired in /repo ea464ca); (iii) Projector::project / project_node render, for trees of any size, an outline that is well-nested "
                        "from level 1 (each heading at most one level deeper than the one before it, heading level = section nesting "
                        "depth + 1) and restarts at level 1 inside block quotes and list items. Not covered: which split positions are "
                        "chosen (process_blocks), project_list_item (assumed contract), the text renderers and list padding.",
